@@ -296,6 +296,12 @@ impl Recv {
                 .push_back(&mut self.buffer, Event::Headers(message));
             stream.notify_recv();
 
+            // The receive half may have just ended: no further PUSH_PROMISE
+            // can arrive, so a task waiting for one has to be told.
+            if stream.state.is_recv_end_stream() {
+                stream.notify_push();
+            }
+
             // Only servers can receive a headers frame that initiates the stream.
             // This is verified in `Streams` before calling this function.
             if counts.peer().is_server() {
@@ -465,6 +471,7 @@ impl Recv {
             .pending_recv
             .push_back(&mut self.buffer, Event::Trailers(trailers));
         stream.notify_recv();
+        stream.notify_push();
 
         Ok(())
     }
@@ -949,6 +956,10 @@ impl Recv {
         // Push the frame onto the recv buffer
         stream.pending_recv.push_back(&mut self.buffer, event);
         stream.notify_recv();
+
+        if stream.state.is_recv_end_stream() {
+            stream.notify_push();
+        }
 
         Ok(())
     }
